@@ -78,6 +78,10 @@ def scopes(quick, avoid_sim):
     sim_small = cfg_text(FULL_PAL, 8, 2, decor=1000, indents="{1, 2, 3, 4}", breaks=br3, flags=ALL_FLAGS,
                          avoid=avoid_sim, sim=True)
     out.append(("sim8", sim_small, "num=%d" % (2500 if quick else 30000)))
+    # the same small random documents WITHOUT avoiding the known-defect triggers, so that the known
+    # findings are exhibited (KNOWN-FINDING) and anything else there is still a violation
+    sim_known = cfg_text(FULL_PAL, 9, 1, decor=1000, indents="{1, 2, 3, 4}", breaks=br3, flags=ALL_FLAGS, avoid="{}", sim=True)
+    out.append(("simk", sim_known, "num=%d" % (1200 if quick else 10000)))
     return out
 
 
@@ -91,11 +95,11 @@ def replay_lines(res):
     return out
 
 
-def generate(ctx, quick, avoid_sim, parallel=3, workers=2):
+def generate(ctx, quick, avoid_sim, parallel=3, workers=2, extra=()):
     """Run every scope (TLC processes side by side: `parallel` x `workers` <= 6 threads);
     returns the path of the NDJSON file with all behaviours and their number."""
     from concurrent.futures import ThreadPoolExecutor
-    sc = scopes(quick, avoid_sim)
+    sc = scopes(quick, avoid_sim) + list(extra)
     path = ctx.path("behaviours.ndjson")
     if os.environ.get("VERIF_DEV_REUSE") and os.path.exists(path):
         # development aid (mutation testing): reuse the behaviours TLC generated in the previous run
